@@ -117,6 +117,7 @@ def sim_trylock(self):
         W.k.count("flock-contended")
         raise IOError(errno.EAGAIN, "locked")
     W.flocks[p] = pid
+    W.lock_holders[(p, pid)] = W.lock_holders.get((p, pid), 0) + 1
     W.k.log("flock", path=W.rel(p))
 
 
@@ -125,7 +126,15 @@ def sim_unlock(self):
     pid = cur_pid()
     if W.flocks.get(p) == pid:
         del W.flocks[p]
+    n = W.lock_holders.get((p, pid), 0) - 1
+    W.lock_holders[(p, pid)] = max(n, 0)
     W.k.log("funlock", path=W.rel(p))
+    if n > 0:
+        # POSIX record locks belong to the process: this unlock also dropped the lock that another
+        # lock object of the same process still believes it holds
+        a = W.k.current
+        W.k.log("flock-dropped-under-holder", path=W.rel(p), by=a.kind if a else None)
+        W.k.count("probe:lock-dropped-under-another-holder")
 
 
 def sim_ipl_init(self, path, *a, **kw):
@@ -790,6 +799,7 @@ class World:
         self.on_spawn = []
         self.on_kill = []
         self.jobdir_variant = {}
+        self.lock_holders = {}
         self.on_body_start = []
         self.state_listeners = []
         self.jobx = {}         # id(job) -> x
@@ -901,6 +911,8 @@ class World:
         for p, o in list(self.flocks.items()):
             if o == pid:
                 del self.flocks[p]
+        for key in [k for k in self.lock_holders if k[1] == pid]:
+            del self.lock_holders[key]
 
     def end_process(self, proc, code):
         """Normal end of a simulated process (runs in its own actor)."""
